@@ -426,8 +426,21 @@ func (e *Exception) Value() Value {
 	return e.val
 }
 
-func (e *Exception) Unwrap() error {
+// Unwrap returns the Go error wrapped by the thrown value if it is an instance of GoError, nil otherwise.
+// Finding that out runs script code when the thrown value is a Proxy or has a 'value' accessor; if that code
+// throws, the value is not treated as a GoError: Unwrap (and therefore errors.Is/As) must not panic.
+func (e *Exception) Unwrap() (err error) {
 	if obj, ok := e.val.(*Object); ok {
+		defer func() {
+			if x := recover(); x != nil {
+				switch x.(type) {
+				case *Exception, Value, typeError, referenceError, rangeError, syntaxError, *InterruptedError, *StackOverflowError:
+					err = nil
+				default:
+					panic(x)
+				}
+			}
+		}()
 		if obj.runtime.getGoError().self.hasInstance(obj) {
 			if val := obj.Get("value"); val != nil {
 				e1, _ := val.Export().(error)
